@@ -10,9 +10,9 @@ from .core import Ctx, Infra, casehash, log
 @pipeline
 def c10(ctx: Ctx):
     ctx.assumptions = [
-        "TLC; spec/RobustTraffic.tla spans the space: 26 legal-but-unusual document features x 44 request and 16 response mutations x MultiError; the oracle is the outcome alphabet",
-        "'any bytes' is sampled, structured by the spec, not exhausted; documents the library's own Validate rejects are outside the premise (counted, not judged)",
-        "harness/c10.go builds and loads each document (cached per feature set), constructs both routers, and runs FindRoute (both), ValidateRequest, ConvertErrors, ValidateResponse and the strict middleware with each call's panic recovered separately; 8 s watchdog; process death recorded by the runner",
+        "TLC; spec/RobustTraffic.tla spans 37 named legal-but-unusual document features x 55 request and 16 response mutations x MultiError; spec/RobustShapes.tla spans the structured product leaf schema (53) x wrap (18) x site (58) x value (59) x document modifier (40) x option set (17) x named feature x traffic mutations in five parts (183), emitted as strength-2 orthogonal arrays (every pair of atoms of every two dimensions), one array per mutation mode; the oracle is the outcome alphabet",
+        "'any bytes' is sampled, structured by the spec (pairwise over the structured dimensions), not exhausted; documents the library's own Validate rejects are outside the premise (counted, not judged)",
+        "harness/c10.go + c10s.go build and load each document, construct both routers, and run FindRoute (both), ValidateRequest (route of either router), ConvertErrors, the default error encoder, ValidateResponse, the reading of every returned error, the strict and lenient middleware and a second pass on the same document, each call's panic recovered separately; 8 s watchdog; 256 MB maximal stack; process death recorded by the runner; errors are read on traffic nested at most 500 deep",
     ]
     cases = os.path.join(ctx.scratch, "cases.ndjson")
     if ctx.replay:
@@ -49,5 +49,6 @@ def c10(ctx: Ctx):
             ctx.samples.append(dict(c=o["c"], obs=o["obs"]))
     ctx.extra["cases_with_document_rejected_by_library_not_judged"] = rejected_docs
     ctx.rule = ("BFS of spec/RobustTraffic.tla: feature sets of size <= MaxFeat x mutation sequences of length <= MaxMut (pairs of features with at most one "
-                "mutation) x request/response side x MultiError; non-trivial = at least one feature or mutation, document accepted by Validate")
+                "mutation) x request/response side x MultiError; plus the rows of the orthogonal arrays of spec/RobustShapes.tla (P = 59, one array per mutation mode, "
+                "columns offset by the seed); non-trivial = at least one feature or mutation or a structured case, document accepted by Validate")
     ctx.validate("Trace_C10", "Trace_C10.cfg", logp, chunk_lines=2000)
